@@ -2,17 +2,25 @@
    The executable model itself is in Prim.v (primitive codecs), PL.v (parameter-list layer),
    Qos.v (QosPolicies) and Disc.v (discovery data types). *)
 From Coq Require Import List ZArith Lia Bool.
-From RD Require Import Common.Corr C15.Prim C15.PL C15.Qos C15.Disc.
+From RD Require Import Common.Corr C15.Prim C15.PL C15.Qos C15.Disc C15.Sedp.
 Import ListNotations.
 Open Scope Z_scope.
 
 (* the values that travel *)
 Inductive value :=
 | VQos (q : qos)
-| VSpdp (s : spdp).
+| VSpdp (s : spdp)
+| VReader (r : reader_data)
+| VWriter (w : writer_data)
+| VTopic (t : topic_data)
+| VPmd (p : pmd).
 
-Inductive kind := KQos | KSpdp.
-Definition kind_of (v : value) : kind := match v with VQos _ => KQos | VSpdp _ => KSpdp end.
+Inductive kind := KQos | KSpdp | KReader | KWriter | KTopic | KPmd.
+Definition kind_of (v : value) : kind :=
+  match v with
+  | VQos _ => KQos | VSpdp _ => KSpdp | VReader _ => KReader | VWriter _ => KWriter
+  | VTopic _ => KTopic | VPmd _ => KPmd
+  end.
 
 (* CVal: serialise v (to_pl_cdr_bytes / to_parameter_list + serialize_to_bytes), deserialise the
          bytes, and deserialise again after inserting the foreign parameters `ins`
@@ -31,13 +39,28 @@ Definition omap {A B} (f : A -> B) (o : outcome A) : outcome B :=
   match o with Ok a => Ok (f a) | Err => Err | OutOfFuel => OutOfFuel end.
 
 Definition to_params (e : endian) (v : value) : list param :=
-  match v with VQos q => qos_to_params e q | VSpdp s => spdp_to_params e s end.
+  match v with
+  | VQos q => qos_to_params e q
+  | VSpdp s => spdp_to_params e s
+  | VReader r => reader_to_params e r
+  | VWriter w => writer_to_params e w
+  | VTopic t => topic_to_params e t
+  | VPmd _ => []
+  end.
+(* ParticipantMessageData is plain CDR: no parameter list, nothing can be inserted *)
 Definition encode (e : endian) (v : value) (ins : list (nat * param)) : list Z :=
-  enc_pl e (insert_all ins (to_params e v)).
+  match v with
+  | VPmd p => enc_pmd e p
+  | _ => enc_pl e (insert_all ins (to_params e v))
+  end.
 Definition decode (e : endian) (k : kind) (bs : list Z) : outcome value :=
   match k with
   | KQos => omap VQos (decode_qos e bs)
   | KSpdp => omap VSpdp (decode_spdp e bs)
+  | KReader => omap VReader (decode_reader e bs)
+  | KWriter => omap VWriter (decode_writer e bs)
+  | KTopic => omap VTopic (decode_topic e bs)
+  | KPmd => omap VPmd (decode_pmd e bs)
   end.
 
 Definition run (c : case) : obs :=
@@ -88,8 +111,30 @@ Proof.
           | apply (list_eq_dec locator_eq_dec) | apply (option_eq_dec duration_eq_dec)
           | apply (option_eq_dec Z.eq_dec) | apply (option_eq_dec bytes_eq_dec)].
 Defined.
+Definition content_filter_eq_dec (a b : content_filter) : {a = b} + {a <> b}.
+Proof. decide equality; first [apply bytes_eq_dec | apply (list_eq_dec bytes_eq_dec)]. Defined.
+Definition reader_data_eq_dec (a b : reader_data) : {a = b} + {a <> b}.
+Proof.
+  decide equality;
+    first [apply bytes_eq_dec | apply Bool.bool_dec | apply (list_eq_dec locator_eq_dec)
+          | apply (option_eq_dec bytes_eq_dec) | apply qos_eq_dec | apply (option_eq_dec content_filter_eq_dec)].
+Defined.
+Definition writer_data_eq_dec (a b : writer_data) : {a = b} + {a <> b}.
+Proof.
+  decide equality;
+    first [apply bytes_eq_dec | apply (list_eq_dec locator_eq_dec) | apply (option_eq_dec Z.eq_dec)
+          | apply (option_eq_dec bytes_eq_dec) | apply qos_eq_dec
+          | apply (option_eq_dec (list_eq_dec bytes_eq_dec))].
+Defined.
+Definition topic_data_eq_dec (a b : topic_data) : {a = b} + {a <> b}.
+Proof. decide equality; first [apply bytes_eq_dec | apply (option_eq_dec bytes_eq_dec) | apply qos_eq_dec]. Defined.
+Definition pmd_eq_dec (a b : pmd) : {a = b} + {a <> b}.
+Proof. decide equality; apply bytes_eq_dec. Defined.
 Definition value_eq_dec (a b : value) : {a = b} + {a <> b}.
-Proof. decide equality; first [apply qos_eq_dec | apply spdp_eq_dec]. Defined.
+Proof.
+  decide equality; first [apply qos_eq_dec | apply spdp_eq_dec | apply reader_data_eq_dec
+                         | apply writer_data_eq_dec | apply topic_data_eq_dec | apply pmd_eq_dec].
+Defined.
 Definition outcome_eq_dec {A} (d : forall a b : A, {a = b} + {a <> b}) (a b : outcome A) : {a = b} + {a <> b}.
 Proof. decide equality. Defined.
 Definition obs_eq_dec (a b : obs) : {a = b} + {a <> b}.
@@ -138,14 +183,52 @@ Definition spdp_okb (v : spdp) : bool :=
   oallb u32_okb (sp_builtin_endpoint_qos v) &&
   oallb pstring_okb (sp_entity_name v).
 
+Definition is_none {A} (o : option A) : bool := match o with None => true | Some _ => false end.
+Definition is_nil {A} (l : list A) : bool := match l with [] => true | _ => false end.
+Definition guid_okb (g : guid) : bool := len g =? 16.
+Definition string_okb (s : list Z) : bool := utf8_valid s && (len s + 1 <? 4294967296).
+Definition cfp_okb (c : content_filter) : bool :=
+  string_okb (cf_name c) && string_okb (cf_related c) && string_okb (cf_class c) && string_okb (cf_expr c) &&
+  forallb string_okb (cf_params c) && (len (enc_cfp LE c) <=? 65532) && (len (enc_cfp BE c) <=? 65532).
+Definition reader_okb (v : reader_data) : bool :=
+  guid_okb (rd_remote_reader_guid v) && (if bytes_eq_dec (rd_key v) (rd_remote_reader_guid v) then true else false) &&
+  forallb locator_okb (rd_unicast v) && forallb locator_okb (rd_multicast v) &&
+  oallb guid_okb (rd_participant_key v) && pstring_okb (rd_topic_name v) && pstring_okb (rd_type_name v) &&
+  qos_okb (rd_qos v) && is_none (q_history (rd_qos v)) && is_none (q_resource_limits (rd_qos v)) &&
+  oallb cfp_okb (rd_content_filter v).
+Definition topic_okb (v : topic_data) : bool :=
+  oallb guid_okb (td_key v) && pstring_okb (td_name v) && pstring_okb (td_type_name v) &&
+  qos_okb (td_qos v) && is_none (q_time_based_filter (td_qos v)).
+Definition pmd_okb (p : pmd) : bool :=
+  (len (pm_guid p) =? 12) && (len (pm_kind p) =? 4) && (len (pm_data p) <? 4294967296).
+
+Definition aliases_okb (l : list (list Z)) : bool := negb (is_nil l) && forallb pstring_okb l.
+Definition writer_okb (v : writer_data) : bool :=
+  guid_okb (wd_remote_writer_guid v) && (if bytes_eq_dec (wd_key v) (wd_remote_writer_guid v) then true else false) &&
+  forallb locator_okb (wd_unicast v) && forallb locator_okb (wd_multicast v) &&
+  oallb u32_okb (wd_data_max_size_serialized v) &&
+  oallb guid_okb (wd_participant_key v) && pstring_okb (wd_topic_name v) && pstring_okb (wd_type_name v) &&
+  qos_okb (wd_qos v) && is_none (q_history (wd_qos v)) && is_none (q_resource_limits (wd_qos v)) &&
+  oallb pstring_okb (wd_service_instance_name v) && oallb guid_okb (wd_related_datareader_key v) &&
+  oallb aliases_okb (wd_topic_aliases v).
+
 Definition value_okb (v : value) : bool :=
-  match v with VQos q => qos_okb q | VSpdp s => spdp_okb s end.
+  match v with
+  | VQos q => qos_okb q | VSpdp s => spdp_okb s | VReader r => reader_okb r
+  | VWriter w => writer_okb w | VTopic t => topic_okb t | VPmd p => pmd_okb p
+  end.
 Definition value_ok (v : value) : Prop :=
-  match v with VQos q => qos_ok q | VSpdp s => spdp_ok s end.
+  match v with
+  | VQos q => qos_ok q | VSpdp s => spdp_ok s | VReader r => reader_ok r
+  | VWriter w => writer_ok w | VTopic t => topic_ok t | VPmd p => pmd_ok p
+  end.
 
 (* the parameter ids the deserialiser of each kind looks at *)
 Definition known_pids (k : kind) : list Z :=
-  match k with KQos => qos_pids | KSpdp => spdp_pids end.
+  match k with
+  | KQos => qos_pids | KSpdp => spdp_pids | KReader => reader_pids | KWriter => writer_pids
+  | KTopic => topic_pids | KPmd => []
+  end.
 
 (* a foreign parameter: id fits, is not the sentinel, is not looked at, value fits the length field *)
 Definition foreign_okb (k : kind) (p : param) : bool :=
@@ -156,7 +239,6 @@ Definition ins_okb (k : kind) (ins : list (nat * param)) : bool := forallb (fun 
 (* defaults: what an absent parameter must decode to.  `absent pid` is judged on the wire bytes. *)
 Definition absent (e : endian) (bs : list Z) (pid : Z) : bool :=
   match dec_pl e bs with Ok ps => match lookup_all ps pid with [] => true | _ => false end | _ => false end.
-Definition is_none {A} (o : option A) : bool := match o with None => true | Some _ => false end.
 Definition implb' (a b : bool) : bool := if a then b else true.
 
 Definition qos_defaults_okb (ab : Z -> bool) (q : qos) : bool :=
@@ -173,7 +255,6 @@ Definition qos_defaults_okb (ab : Z -> bool) (q : qos) : bool :=
   implb' (ab PID_RESOURCE_LIMITS) (is_none (q_resource_limits q)) &&
   implb' (ab PID_LIFESPAN) (is_none (q_lifespan q)).
 
-Definition is_nil {A} (l : list A) : bool := match l with [] => true | _ => false end.
 
 (* SpdpDiscoveredParticipantData: expects_inline_qos = false, manual_liveliness_count = 0,
    empty locator lists, None *)
@@ -188,10 +269,33 @@ Definition spdp_defaults_okb (ab : Z -> bool) (v : spdp) : bool :=
   implb' (ab PID_BUILTIN_ENDPOINT_QOS) (is_none (sp_builtin_endpoint_qos v)) &&
   implb' (ab PID_ENTITY_NAME) (is_none (sp_entity_name v)).
 
+Definition reader_defaults_okb (ab : Z -> bool) (v : reader_data) : bool :=
+  implb' (ab PID_EXPECTS_INLINE_QOS) (negb (rd_expects_inline_qos v)) &&
+  implb' (ab PID_UNICAST_LOCATOR) (is_nil (rd_unicast v)) &&
+  implb' (ab PID_MULTICAST_LOCATOR) (is_nil (rd_multicast v)) &&
+  implb' (ab PID_PARTICIPANT_GUID) (is_none (rd_participant_key v)) &&
+  implb' (ab PID_CONTENT_FILTER_PROPERTY) (is_none (rd_content_filter v)) &&
+  qos_defaults_okb ab (rd_qos v).
+Definition writer_defaults_okb (ab : Z -> bool) (v : writer_data) : bool :=
+  implb' (ab PID_UNICAST_LOCATOR) (is_nil (wd_unicast v)) &&
+  implb' (ab PID_MULTICAST_LOCATOR) (is_nil (wd_multicast v)) &&
+  implb' (ab PID_TYPE_MAX_SIZE_SERIALIZED) (is_none (wd_data_max_size_serialized v)) &&
+  implb' (ab PID_PARTICIPANT_GUID) (is_none (wd_participant_key v)) &&
+  implb' (ab PID_SERVICE_INSTANCE_NAME) (is_none (wd_service_instance_name v)) &&
+  implb' (ab PID_RELATED_ENTITY_GUID) (is_none (wd_related_datareader_key v)) &&
+  implb' (ab PID_TOPIC_ALIASES) (is_none (wd_topic_aliases v)) &&
+  qos_defaults_okb ab (wd_qos v).
+Definition topic_defaults_okb (ab : Z -> bool) (v : topic_data) : bool :=
+  implb' (ab PID_ENDPOINT_GUID) (is_none (td_key v)) && qos_defaults_okb ab (td_qos v).
+
 Definition defaults_okb (ab : Z -> bool) (v : value) : bool :=
   match v with
   | VQos q => qos_defaults_okb ab q
   | VSpdp s => spdp_defaults_okb ab s
+  | VReader r => reader_defaults_okb ab r
+  | VWriter w => writer_defaults_okb ab w
+  | VTopic t => topic_defaults_okb ab t
+  | VPmd _ => true
   end.
 
 (* The property oracle, on observables only.
